@@ -741,6 +741,40 @@ def oracle_collision(rn, pr, real, zcache):
     return bad
 
 
+UNPROCESSED = " (an input of this command was replaced by the output of an earlier input before it was read)"
+
+
+def oracle_unprocessed_input(rn, pr, real, zcache):
+    """final state only, outside wf: a source that is also the destination name of an EARLIER source of the same run and
+    pre-existed as a regular file.  If it is gone / changed, some file must still stand for its original bytes
+    (candidate C19-output-replaces-unprocessed-input: `zstd -f --rm a a.zst` with a pre-existing a.zst)."""
+    case = pr.case
+    bad = []
+    names = pr.names
+    for k, s in enumerate(names):
+        orig = case.files.get(s)
+        if not isinstance(orig, bytes) or names.count(s) > 1:
+            continue
+        if not any(pr.dst.get(x) == s for x in names[:k]):
+            continue
+        if real.get(s) == orig:
+            continue
+        d = pr.dst.get(s)
+        got = deref(real, d) if d else None
+        ok = False
+        if isinstance(got, bytes):
+            if case.mode == "C":
+                key = hashlib.sha1(got).hexdigest()
+                if key not in zcache:
+                    zcache[key] = rn.lib_decode(got)
+                ok = zcache[key] == orig
+            elif case.mode == "D":
+                ok = bool(pr.accept.get(s)) and got == pr.decoded.get(s)
+        if not ok:
+            bad.append("input %s was overwritten by the output of an earlier input and its original content is represented nowhere%s" % (s, UNPROCESSED))
+    return bad
+
+
 def oracle_noclobber(pr, real, final=False):
     """pre-existing files, directories and links: untouched unless (-f / confirmed and it is a destination) or
     (a source removed by --rm)"""
@@ -854,6 +888,7 @@ def check_case(rn, case, nkill, nint, rng, replay_only=None, nfault=0):
     concrete += oracle_noclobber(pr, real, final=True)
     if not pr.wf:
         concrete += oracle_collision(rn, pr, real, zcache)
+        concrete += oracle_unprocessed_input(rn, pr, real, zcache)
     srcs_ok = [s for s in names if s in pr.content]
     skipped = [s for s in names if case.mode == "C" and case.excl and s != "-" and
                os.path.splitext(s)[1] in (".zst", ".tzst", ".gz", ".tgz", ".lzma", ".xz", ".txz", ".lz4", ".tlz4") and os.path.basename(s) != os.path.splitext(s)[1]]
@@ -939,6 +974,7 @@ def check_case(rn, case, nkill, nint, rng, replay_only=None, nfault=0):
                     ("C19-destination-collision-rm-loses-source"
                      if case.out.startswith("O:") and len(set(os.path.basename(x) for x in names)) < len(names) else
                      "C19-destination-collision-default-names") if COLLISION in w_ else
+                    "C19-output-replaces-unprocessed-input" if UNPROCESSED in w_ else
                     "C19-prompt-nul-byte-accepted-as-yes" if (NULANSWER(case) and "no -f was given" in w_) else None))
     rn.cleanup(r)
     if concrete:
@@ -1431,6 +1467,9 @@ def corpus2(g, quick):
           files={"d1": DIR, "d2": DIR, "d1/a.zst": ZA, "d2/a.zst": ZB, "out": DIR}), nk=2, ni=0)
     add(C("col-d-zst-zstd-force-rm", "D", ["a.zst", "a.zstd"], force=True, rm=True, files={"a.zst": ZA, "a.zstd": ZB}), nk=2, ni=0)
     add(C("col-d-tzst-tarzst-force-rm", "D", ["a.tzst", "a.tar.zst"], force=True, rm=True, files={"a.tzst": ZA, "a.tar.zst": ZB}), nk=2, ni=0)
+    add(C("unp-c-force-rm", "C", ["a", "a.zst"], force=True, rm=True, files={"a": A, "a.zst": OLD}), nk=2, ni=0)
+    add(C("unp-c-force-rm-reversed", "C", ["a.zst", "a"], force=True, rm=True, files={"a": A, "a.zst": OLD}), nk=2, ni=0)
+    add(C("unp-d-force-rm", "D", ["a.zst.zst", "a.zst"], force=True, rm=True, files={"a.zst.zst": g.z(ZA), "a.zst": ZB}), nk=2, ni=0)
     add(C("col-d-zst-zstd-rm", "D", ["a.zst", "a.zstd"], rm=True, files={"a.zst": ZA, "a.zstd": ZB}), nk=2, ni=0)
     add(C("col-d-flat-zst-zstd-force-rm", "D", ["d1/a.zst", "d2/a.zstd"], out="O:out", force=True, rm=True,
           files={"d1": DIR, "d2": DIR, "d1/a.zst": ZA, "d2/a.zstd": ZB, "out": DIR}), nk=2, ni=0)
@@ -1951,7 +1990,9 @@ def run(ctx):
         "the direct oracles and compared with the model under the same fault; then the process tree is killed at system call k (every k from the first call naming a case "
         "file; sampled in quick) and SIGINT is delivered at sampled calls of a finer grid; sparse-writer cases = run specs (zero / non-zero runs around the 8-byte word, the "
         "32 KiB segment, job and frame boundaries, >1 GiB stored skips, zero runs beyond 4 GiB) driven through AIO_fwriteSparse/End vs the model call by call (vs the plain "
-        "content beyond 4 GiB), and CLI scenarios for the sparse setting. distinct_nontrivial counts distinct signatures (kind, invocation shape, model operation-kind sequence | "
+        "content beyond 4 GiB), and CLI scenarios for the sparse setting; round 3: two sources of one run into one destination name (--output-dir-flat with equal "
+        "basenames, -r, a.zst + a.zstd, a.tzst + a.tar.zst; with and without -f / --rm), the prompts answered with a NUL byte / end of input / newline / 0xff / Yes, "
+        "and --rm with a destination that is a device or a FIFO (direct oracle). distinct_nontrivial counts distinct signatures (kind, invocation shape, model operation-kind sequence | "
         "fault site | matched model prefix state index | sparse op-kind sequence); a trace is trivial if the model predicts no file operation besides exit.")
     import glob
     import time
